@@ -3,6 +3,7 @@ C09 — Strings compare and hash by content however and whenever they were creat
 Corollaries of the history invariant of `Props/C05.lean` (same allocator model).
 -/
 import LaytheVerif.Props.C05
+import LaytheVerif.Lemmas.AllocGen
 namespace LaytheVerif.C09
 open LaytheVerif.Alloc LaytheVerif.C05
 
